@@ -29,7 +29,8 @@ ASSUMPTIONS = [
 BUDGET = {"quick": 900, "thorough": 4 * 3600}
 DEPTH = {"quick": 2, "thorough": 3}
 HOPS = ["seed0", "seed12345", "draw", "fit_km_random", "fit_gmm", "fit_isv", "fit_jfa", "fit_ivector", "fit_km_parallel"]
-TARGETS = ["km_random", "km_random_dask", "gmm_km", "gmm_km_dask", "isv_list", "isv_bag", "isv_array_dask", "jfa_list", "wccn", "km_parallel"]
+TARGETS = ["km_random", "km_random_dask", "gmm_km", "gmm_km_dask", "isv_list", "isv_bag", "isv_array_dask", "jfa_list", "wccn", "km_parallel",
+           "isv_list_seed0", "jfa_list_seed0", "km_random_refit", "gmm_shared_km_trainer"]
 
 X8 = [[0, 0], [1, 0.5], [0.5, 1.5], [10, 10], [11, 11.5], [10.5, 9.5], [2, 1], [9, 12]]
 Y8 = [0, 1, 0, 1, 0, 1, 1, 0]
@@ -51,11 +52,11 @@ def cases(tier, seed):
     for t, n in (("km_explicit", 5), ("gmm_explicit", 5), ("whitening", 5)):
         for perm in itertools.permutations(range(n)):
             out.append(dict(kind="perm", target=t, perm=list(perm), rename=None, seed=seed))
-    for t, n, K in (("isv", 4, 2), ("jfa", 4, 2), ("isv3", 5, 3), ("wccn", 5, 2), ("wccn3", 6, 3), ("isv_array", 5, 2)):
+    for t, n, K in (("isv", 4, 2), ("jfa", 4, 2), ("isv3", 5, 3), ("wccn", 5, 2), ("wccn3", 6, 3), ("isv_array", 5, 2), ("jfa_array", 5, 2)):
         perms = list(itertools.permutations(range(n)))
         if n == 6:
             perms = perms[::6]
-        if t in ("isv3", "isv_array") and tier == "quick":
+        if t in ("isv3", "isv_array", "jfa_array") and tier == "quick":
             perms = perms[::3]
         for perm in perms:
             for ren in itertools.permutations(range(K)):
@@ -94,6 +95,20 @@ def _fit_target(t, X, ubm, stats):
         g = GMMMachine(2, k_means_trainer=KMeansMachine(2, init_method="random", random_state=5, max_iter=2), random_state=5, max_fitting_steps=2,
                        update_means=True, update_variances=True, update_weights=True, convergence_threshold=None).fit(A)
         return _vec(g, ["means", "variances", "weights"])
+    if t == "isv_list_seed0":
+        return _vec(ISVMachine(r_U=2, em_iterations=1, ubm=ubm, random_state=0).fit(copy.deepcopy(stats), sl), ["U", "D"])
+    if t == "jfa_list_seed0":
+        return _vec(JFAMachine(r_U=1, r_V=1, em_iterations=1, ubm=ubm, random_state=0).fit(copy.deepcopy(stats), sl), ["U", "V", "D"])
+    if t == "km_random_refit":
+        # the same estimator object was trained on other data before: fit() re-initialises, the result must not depend on it
+        m = KMeansMachine(2, init_method="random", random_state=3, max_iter=3)
+        m.fit(X[::-1][:6] * 0.5 + 1.0)
+        return _vec(m.fit(X.copy()), ["centroids_"])
+    if t == "gmm_shared_km_trainer":
+        km = KMeansMachine(2, init_method="random", random_state=5, max_iter=2)
+        kw = dict(random_state=5, max_fitting_steps=2, update_means=True, update_variances=True, update_weights=True, convergence_threshold=None)
+        GMMMachine(2, k_means_trainer=km, **kw).fit(X[::-1][:6] * 0.5 + 1.0)
+        return _vec(GMMMachine(2, k_means_trainer=km, **kw).fit(X.copy()), ["means", "variances", "weights"])
     if t == "isv_list":
         return _vec(ISVMachine(r_U=2, em_iterations=2, ubm=ubm, random_state=4).fit(copy.deepcopy(stats), sl), ["U", "D"])
     if t == "isv_bag":
@@ -165,6 +180,10 @@ def _perm_case(case, c, s, o):
             base = [0, 1, 0, 1, 1]
             ys = np.array([rename[base[i]] for i in order])
             return _vec(ISVMachine(r_U=1, em_iterations=2, ubm=ubm, random_state=4).fit_using_array(da.from_array(X[:n][order].copy(), chunks=(2, 2)), ys), ["U"])
+        if t == "jfa_array":
+            base = [0, 1, 0, 1, 1]
+            ys = np.array([rename[base[i]] for i in order])
+            return _vec(JFAMachine(r_U=1, r_V=1, em_iterations=2, ubm=ubm, random_state=4).fit_using_array(da.from_array(X[:n][order].copy(), chunks=(2, 2)), ys), ["U", "V", "D"])
         base = {"isv": [0, 1, 0, 1], "jfa": [0, 1, 1, 0], "isv3": [0, 1, 2, 0, 1]}[t]
         st = [copy.deepcopy(stats[i]) for i in order]
         ys = np.array([rename[base[i]] for i in order])
@@ -195,10 +214,11 @@ def run_case(case):
         else:
             X, ubm, stats = _world(s, o)
             np.random.seed(424242)
-            ref = _fit_target(case["target"], X, ubm, stats)
+            fresh = {"km_random_refit": "km_random", "gmm_shared_km_trainer": "gmm_km"}.get(case["target"], case["target"])
+            ref = _fit_target(fresh, X, ubm, stats)
             again = _fit_target(case["target"], X, ubm, stats)
             for k in ref:
-                c.check(np.array_equal(ref[k], again[k]), "repeat", f"{case['target']}: fitting twice in a row gives different {k}", dict(target=case["target"]))
+                c.check(np.array_equal(ref[k], again[k]), "repeat", f"{case['target']}: fitting again (same data, configuration and seed) gives different {k} than a fresh estimator", dict(target=case["target"]))
             np.random.seed(424242)
             for op in case["hist"]:
                 _hop(op, X, ubm, stats)
